@@ -39,7 +39,7 @@ def run(ctx):
         toks = ["".join(t) for t in m["line"]]
         bad = False
         for wb in (0, 1):
-            err, res, _ = L.parse_once(DefaultArgsParser(), fobjs[m["f"] - 1][wb], f, toks, m["lenient"])
+            err, res, _ = L.parse_once(DefaultArgsParser(), fobjs[m["f"] - 1][wb], f, toks, m["lenient"], form=("string" if wb else "argv"))
             ctx.count()
             if err != m["err"] or (err == "none" and res != m["result"]):
                 bad = True
